@@ -16,7 +16,7 @@ EXPLANATION = ("S1-S12 every request builder is abstractly evaluated (path-sensi
 TRUSTED = ['lber serialises shapes faithfully (C07)', 'RFC 4511 shapes transcribed in rules/props/C02.py']
 UNDECIDED = ['byte-level serialisation (C07)', 'arbitrary value sizes']
 ASSUMPTIONS = []
-SHARED = [('C08', ('P3.', 'P4.', 'P1.entry'), 'S16.filter')]      # the Filter of a SearchRequest is built by the filter compiler's semantic actions
+SHARED = [('C08', ('P3.', 'P4.', 'P1.entry'), 'S16.filter'), ('C07', ('B1.', 'B2m.', 'B4.encoder', 'B5.'), 'S17.ber-writer')]      # the Filter of a SearchRequest is built by the filter compiler's semantic actions
 
 SELF = ('param', 'self')
 LDAP = 'ldap3::ldap::Ldap::'
